@@ -23,4 +23,5 @@ def main (args : List String) : IO UInt32 := do
   | ["C17"] => Proto.runLoop C17.driverStep (); return 0
   | ["C06"] => Proto.runLoop C06.driverStep (); return 0
   | ["C16"] => Proto.runLoop C16.driverStep {}; return 0
+  | ["C14"] => Proto.runLoop C14.driverStep {}; return 0
   | _ => IO.eprintln s!"unknown driver {args}"; return 2
